@@ -87,6 +87,7 @@ func c10Gen(t *rapid.T) qScenario {
 	sc := qScenario{MaxTries: rapid.IntRange(2, 4).Draw(t, "max_tries"), Partial: rapid.Bool().Draw(t, "partial"), Bounce: "ok", TargetRewrites: rapid.IntRange(0, 2).Draw(t, "target_rewrites") == 0}
 	m := qMsg{ID: "m0", AuthUser: c10UserMarker, AuthPassword: c10PassMarker}
 	m.Header = ev.QS(c10GenHeader(t))
+	m.SiblingRoute = rapid.IntRange(0, 3).Draw(t, "sibling_route") == 0
 	body, inFile := c10GenBody(t)
 	m.Body, m.BodyInFile = ev.QS(body), inFile
 	switch rapid.IntRange(0, 5).Draw(t, "sender") {
@@ -188,6 +189,9 @@ func c10Run(sc qScenario) (vs []ev.V) {
 	hdr, err := qParseHeader(string(m.Header))
 	if err != nil {
 		return append(vs, ev.Vf("harness", "generated header does not parse: %v", err))
+	}
+	if m.SiblingRoute {
+		hdr.Add("X-Verif-Route", "this-one")
 	}
 	var want bytes.Buffer
 	textproto.WriteHeader(&want, hdr)
